@@ -195,4 +195,10 @@ class Ref(object):
             return ["exc", "TypeError"]
         if tag == "afn":
             return ["ok", ["afn", s[1]]]
+        if tag == "excval":
+            return ["ok", {"$obj": "ValueError(%d)" % s[1]}]      # a *value* that happens to be an exception instance
+        if tag == "pfn":
+            return ["ok", ["pfn", s[1]]]
+        if tag == "acall":
+            return ["ok", ["ac", s[1], s[2]]]
         raise AssertionError(tag)
